@@ -18,12 +18,20 @@ R1 codec symmetry and operand roles in `remap_path` (one instance per `return`):
 R2 recursion coverage and pass-through:
    a. `remap_token_value`, for File/Directory objects (both class names in the guarding pattern): `location` and `path`
       are replaced by `remap_path(value[<same key>])`, `secondaryFiles` and `listing` by the element-wise recursion
-      over `value[<same key>]`, each under the presence test of that same key, with `path_processor/old_dir/new_dir`
-      forwarded in their own roles;
+      over `value[<same key>]`, each under the presence test of that same key (a fact that holds on every path reaching
+      the store, however the test is spelled), with `path_processor/old_dir/new_dir` forwarded in their own roles *and
+      unchanged*: at every remap call (fields, `listing`, `secondaryFiles`, arrays, records) the only definition of
+      each of the three names that arrives is the parameter value -- nested entries carry complete paths below the
+      same old directory, so a recursion whose directories were re-bound on the way (e.g. to the entry's own old/new
+      `path`) re-bases them on something else than what the caller asked for;
    b. every `return` is the (mutated) value itself, the element-wise recursion over a sequence, or the value-wise
       recursion over a mapping (keys unchanged); no path falls off the end of the function;
-   c. `remap_path` returns the path unchanged for a scheme other than `file` (the rewriting return is dominated by
-      the true edge of a test against the literal `file`, and an unchanged return is reachable from its false edge).
+   c. `remap_path` returns the path unchanged for a scheme other than `file`: the rewriting return lies only behind the
+      edge of a test on which "scheme is `file`" is implied (true edge of `==`/`startswith`, false edge of `!=` or
+      `not ==`, a conjunct of a true `and`; the atom names no second scheme), and an unchanged return is reachable
+      from the other edge.
+Returned values and stored right-hand sides are read through the definitions that reach the statement (sfverif.rules.
+_util_G.expand_at), so `tmp = <expr>; return tmp` repeated on several branches is the same shape as `return <expr>`.
 
 Today's tree violates R1a on both branches (confirmed finding S10).
 Not decided: behaviour of `os.path.relpath` for paths outside old_dir, Windows separators, the value equality itself.
@@ -52,7 +60,7 @@ META = {
         "and encoders applied to the value are counted along reaching definitions; operand roles of old_dir/new_dir; "
         "literal-prefix/slice agreement; the relative part comes from relpath/relative_to/removeprefix (not from a len(old_dir) slice) "
         "and its operand is the complete `path` parameter behind the literal prefix (not a parsed-URL component); for File/Directory objects every path-carrying key is rewritten from the same "
-        "key under its own presence test and nested values are recursed; return shapes; non-file schemes untouched."
+        "key under its own presence test and nested values are recursed with the unchanged path_processor/old_dir/new_dir parameters (reaching definitions at the call); return shapes; non-file schemes untouched (branch facts, independent of the spelling of the test)."
     ),
     "undecided": "equality of the round-tripped value (needs execution); relpath semantics for paths outside old_dir",
     "assumptions": ["urllib.parse.quote/unquote are mutually inverse on path names", "CWL File/Directory objects carry paths only in location/path/secondaryFiles/listing"],
@@ -299,13 +307,70 @@ def _is_value_key(e, key=None):
     return None
 
 
-def _forwarded(m, names=("path_processor", "old_dir", "new_dir")) -> list[str]:
+def _forwarded(f, m, at, names=("path_processor", "old_dir", "new_dir")) -> list[str]:
+    """Operands of a remap call that are not the caller's own, *unchanged* parameters: each must be the bare parameter
+    name, and at CFG node `at` (where the call is evaluated) the only definition of that name that arrives must be the
+    parameter value itself -- a directory re-bound on the way (`old_dir, new_dir = value['path'], ...` in front of the
+    `listing` recursion) re-bases the nested files on something else than the requested directories."""
     bad = []
     for n in names:
         a = m.get(n)
         if not (isinstance(a, ast.Name) and a.id == n):
             bad.append(f"{n}={unparse(a) if a is not None else '<missing>'}")
+        elif at is not None:
+            ds = [d for d in reaching(f, n, at) if d != "param"]
+            if ds:
+                bad.append(f"{n} after it was re-bound by `{'`, `'.join(dict.fromkeys(f.cfg.nodes[d].text(70) for d in ds))}` (not the unchanged parameter)")
     return bad
+
+
+def _positive_leaves(a, v):
+    """Atoms of which at least one holds when atom `a` has truth `v`, if that can be read off the spelling: a true
+    atom itself, the disjuncts of a true `or`, the negated conjuncts of a false `and` (De Morgan)."""
+    if isinstance(a, ast.BoolOp) and ((isinstance(a.op, ast.Or) and v) or (isinstance(a.op, ast.And) and not v)):
+        out = []
+        for x in a.values:
+            for b, w in atoms(x, v):
+                out += _positive_leaves(b, w)
+        return out
+    return [a] if v else []
+
+
+def _presence_keys(f, at) -> list:
+    """Keys k for which `k in value` holds on every path that reaches CFG node `at` (however the test is spelled)."""
+    out = []
+    for a, v in facts_at(f.cfg, at):
+        if (v and isinstance(a, ast.Compare) and len(a.ops) == 1 and isinstance(a.ops[0], ast.In) and isinstance(a.left, ast.Constant)
+                and isinstance(a.comparators[0], ast.Name) and a.comparators[0].id == "value"):
+            out.append(a.left.value)
+    return out
+
+
+def _classes_at(f, stmt, at) -> set:
+    """String constants of the conditions under which `stmt` runs: the value patterns of the enclosing `case` clauses
+    and the constants of the tests that hold at CFG node `at` (a test that is known to be *false* there contributes
+    nothing, unless it is a conjunction of negations)."""
+    out = set()
+    child, p = stmt, parent(stmt)
+    while p is not None and p is not f.node:
+        if isinstance(p, ast.match_case) and any(child is x for x in p.body):
+            for n in ast.walk(p.pattern):
+                if isinstance(n, ast.MatchValue) and isinstance(n.value, ast.Constant):
+                    out.add(n.value.value)
+        child, p = p, parent(p)
+    for a, v in facts_at(f.cfg, at):
+        for leaf in _positive_leaves(a, v):
+            out |= {n.value for n in ast.walk(leaf) if isinstance(n, ast.Constant) and isinstance(n.value, str)}
+    return out
+
+
+FILE_LITERALS = ("file", "file://", "file:")
+
+
+def _is_file_atom(f, a, at) -> bool:
+    """Atom `a` (evaluated at CFG node `at`) compares against the `file` scheme and against nothing else."""
+    strs = [const_str(n) for n in ast.walk(expand_at(f, a, at)) if const_str(n) is not None]
+    return any(x in FILE_LITERALS for x in strs) and all(x in FILE_LITERALS or x == "" for x in strs)
 
 
 def r2(ctx):
@@ -327,7 +392,9 @@ def r2(ctx):
                    message=f"remap_token_value never rewrites value['{key}']: " + ("nested files keep pointing into the old directory" if how == "rec" else "the field keeps the old directory"))
             continue
         for s in ss:
-            rhs = expand(f, s.value)
+            sid = _nid(f, s)
+            ctx.require(sid is not None, f"C32.R2: `{unparse(s)[:60]}` not in CFG")
+            rhs = expand_at(f, s.value, sid)
             problems = []
             if how == "path":
                 calls = [c for c in [rhs, *ast.walk(rhs)] if is_call_to(p, f, c, RP)]
@@ -338,7 +405,7 @@ def r2(ctx):
                     src = m.get("path")
                     if _is_value_key(src, key) is None:
                         problems.append(f"is computed from `{unparse(src) if src is not None else None}` instead of value['{key}']")
-                    problems += [f"passes {b}" for b in _forwarded(m)]
+                    problems += [f"passes {b}" for b in _forwarded(f, m, sid)]
             else:
                 comp = rhs if isinstance(rhs, (ast.ListComp, ast.GeneratorExp)) else None
                 if comp is None and isinstance(rhs, ast.Call) and unparse(rhs.func) in ("list", "tuple") and rhs.args and isinstance(rhs.args[0], (ast.ListComp, ast.GeneratorExp)):
@@ -358,16 +425,11 @@ def r2(ctx):
                         v = m.get("value")
                         if not (isinstance(v, ast.Name) and isinstance(gen.target, ast.Name) and v.id == gen.target.id):
                             problems.append(f"recurses on `{unparse(v) if v is not None else None}` instead of the element")
-                        problems += [f"passes {b}" for b in _forwarded(m)]
-            guard_keys = [
-                t.left.value
-                for t, pol, _ in guards_of(s, stop=f.node)
-                if pol and isinstance(t, ast.Compare) and len(t.ops) == 1 and isinstance(t.ops[0], ast.In)
-                and isinstance(t.left, ast.Constant) and isinstance(t.comparators[0], ast.Name) and t.comparators[0].id == "value"
-            ]
+                        problems += [f"passes {b}" for b in _forwarded(f, m, sid)]
+            guard_keys = _presence_keys(f, sid)
             if key not in guard_keys:
                 problems.append(f"is guarded by the presence test of {guard_keys or 'no key'} instead of '{key}'")
-            classes = case_constants(s, stop=f.node)
+            classes = _classes_at(f, s, sid)
             if not {"File", "Directory"} <= classes:
                 problems.append(f"runs only for classes {sorted(c for c in classes if c in ('File', 'Directory')) or 'none'} (File and Directory expected)")
             ctx.ob("R2", f"File/Directory: value['{key}'] is rewritten from itself under its own presence test", not problems, func=f, node=s,
@@ -378,10 +440,13 @@ def r2(ctx):
     for r in rets:
         v = r.value
         shape = "other"
-        if isinstance(v, ast.Name) and v.id == "value":
+        why = ""
+        rid = _nid(f, r)
+        ctx.require(rid is not None, "C32.R2: return not in CFG")
+        ex = expand_at(f, v, rid) if v is not None else None
+        if isinstance(ex, ast.Name) and ex.id == "value":
             shape = "self"
         elif v is not None:
-            ex = expand(f, v)
             comp = ex
             if isinstance(ex, ast.Call) and unparse(ex.func) in ("list", "tuple", "dict") and ex.args:
                 comp = ex.args[0]
@@ -393,8 +458,10 @@ def r2(ctx):
                 ):
                     m = _args_of(f.params, comp.elt)
                     vv = m.get("value")
-                    if isinstance(vv, ast.Name) and vv.id == gen.target.id and not _forwarded(m):
+                    bad = _forwarded(f, m, rid)
+                    if isinstance(vv, ast.Name) and vv.id == gen.target.id and not bad:
                         shape = "seq"
+                    why = "; ".join(f"passes {b}" for b in bad)
             elif isinstance(comp, ast.DictComp) and len(comp.generators) == 1:
                 gen = comp.generators[0]
                 it = gen.iter
@@ -406,12 +473,14 @@ def r2(ctx):
                 ):
                     m = _args_of(f.params, comp.value)
                     vv = m.get("value")
-                    if isinstance(vv, ast.Name) and vv.id == gen.target.elts[1].id and not _forwarded(m):
+                    bad = _forwarded(f, m, rid)
+                    if isinstance(vv, ast.Name) and vv.id == gen.target.elts[1].id and not bad:
                         shape = "map"
+                    why = "; ".join(f"passes {b}" for b in bad)
         shapes.append(shape)
         ctx.ob("R2", "remap_token_value returns the value, the element-wise or the value-wise recursion", shape != "other", func=f, node=r,
                instance=f"remap_token_value:return:{shape if shape != 'other' else unparse(v)[:60] if v is not None else 'None'}",
-               message=f"`return {unparse(v)[:90] if v is not None else ''}` is neither the value itself nor a complete recursion over it (operands in their own roles, no element dropped, keys kept)")
+               message=f"`return {unparse(v)[:90] if v is not None else ''}` is neither the value itself nor a complete recursion over it (operands in their own roles, no element dropped, keys kept)" + (f": {why}" if why else ""))
     for want, what in (("seq", "arrays are recursed element-wise"), ("map", "records are recursed value-wise"), ("self", "other values are returned unchanged")):
         ctx.ob("R2", f"remap_token_value: {what}", want in shapes, func=f, node=f.node, instance=f"remap_token_value:has:{want}",
                message=f"remap_token_value has no `{want}` return: {what} no longer holds")
@@ -425,23 +494,19 @@ def r2(ctx):
     url = [r for r in rets if _kind_of_return(f, r)[0] == "url"]
     unchanged = [r for r in rets if _kind_of_return(f, r)[0] == "unchanged"]
     ctx.require(bool(url), "C32.R2: file:// branch of remap_path not found")
-    tests = []
-    for t in g.nodes.values():
-        if t.kind == "test" and any(const_str(n) in ("file", "file://", "file:") for n in ast.walk(expand(f, t.ast))):
-            tests.append(t)
+    # polarity-agnostic: the edge of a test on which "the scheme is `file`" is implied (`==` on the true edge, `!=` /
+    # `not ==` on the false edge, a conjunct of a true `and`, ...); the rewriting return lies only behind that edge,
+    # an unchanged return is reachable from the other one
     ok = False
     for r in url:
         rid = g.ids_of(r)[0]
-        for t in tests:
-            tsucc = [b for b, k in g.succ[t.id] if k == "t"]
-            fsucc = [b for b, k in g.succ[t.id] if k == "f"]
-            on_true = g.dominates(t.id, rid) and rid not in g.reach(fsucc, avoid=[t.id], include_src=True)
-            positive = not (isinstance(t.ast, ast.Compare) and isinstance(t.ast.ops[0], (ast.NotEq, ast.NotIn)))
-            if not positive:
-                on_true = g.dominates(t.id, rid) and rid not in g.reach(tsucc, avoid=[t.id], include_src=True)
-            other = fsucc if positive else tsucc
-            passes = any(g.ids_of(u) and (g.ids_of(u)[0] in g.reach(other, avoid=[t.id], include_src=True)) for u in unchanged)
-            if on_true and passes:
+        for t in [n for n in g.nodes.values() if n.kind == "test" and n.ast is not None]:
+            edge = edge_for(t.ast, lambda a, v, t=t: v and _is_file_atom(f, a, t.id))
+            if edge is None or not g.dominates(t.id, rid) or rid not in region(g, t.id, edge):
+                continue
+            other = [b for b, k in g.succ[t.id] if k == ("f" if edge == "t" else "t")]
+            away = g.reach(other, avoid=[t.id], include_src=True) if other else set()
+            if any(_nid(f, u) in away for u in unchanged):
                 ok = True
     ctx.ob("R2", "remap_path rewrites only `file` locations; other schemes are returned unchanged", ok, func=f, node=(url[0]),
            instance="remap_path:scheme-guard",
@@ -471,6 +536,11 @@ _IF_CHAIN = '''def remap_token_value(path_processor: ModuleType, old_dir: str, n
     else:
         return value'''
 
+
+_RP_URL = "'file://{}'.format(path_processor.join(new_dir, *os.path.relpath(urllib.parse.unquote(path[7:]), old_dir).split(os.path.sep)))"
+_RP_PLAIN = "path_processor.join(new_dir, *os.path.relpath(urllib.parse.unquote(path), old_dir).split(os.path.sep))"
+_RP_BODY = ("    if ':/' in path:\n        scheme = urllib.parse.urlsplit(path).scheme\n        if scheme == 'file':\n            return " + _RP_URL
+            + "\n        else:\n            return path\n    else:\n        return " + _RP_PLAIN)
 
 VARIANTS = [
     # ---- breaking (R1 already fires twice on remap_path today: each R1 variant must add a finding)
@@ -539,7 +609,64 @@ VARIANTS = [
       "scheme = urllib.parse.urlsplit(path).scheme\n        if scheme == 'file':\n            return 'file://{}'.format(path_processor.join(new_dir, *os.path.relpath(urllib.parse.unquote(path[7:]), old_dir)",
       "url = urllib.parse.urlsplit(path)\n        if url.scheme == 'file':\n            decoded = urllib.parse.unquote(path[7:])\n            return 'file://{}'.format(path_processor.join(new_dir, *os.path.relpath(decoded, old_dir)", None),
     V("benign: relpath called with keywords", FILE, RP, "os.path.relpath(urllib.parse.unquote(path), old_dir)", "os.path.relpath(path=urllib.parse.unquote(path), start=old_dir)", None),
+    # ---- benign: mechanical restructurings (battery kinds tempret / ifswap / elsedrop) and their breaking twins
+    V("benign: every computed return through the same temporary (tempret)", FILE, RP, _RP_BODY,
+      "    if ':/' in path:\n        scheme = urllib.parse.urlsplit(path).scheme\n        if scheme == 'file':\n            _sf_ret = " + _RP_URL + "\n            return _sf_ret\n"
+      "        else:\n            return path\n    else:\n        _sf_ret = " + _RP_PLAIN + "\n        return _sf_ret", None),
+    V("benign: both tests negated, branches swapped (ifswap)", FILE, RP, _RP_BODY,
+      "    if not ':/' in path:\n        return " + _RP_PLAIN + "\n    else:\n        scheme = urllib.parse.urlsplit(path).scheme\n        if not scheme == 'file':\n            return path\n"
+      "        else:\n            return " + _RP_URL, None),
+    V("benign: guard clauses with `!=`, unchanged path through a temporary", FILE, RP, _RP_BODY,
+      "    if ':/' not in path:\n        return " + _RP_PLAIN + "\n    scheme = urllib.parse.urlsplit(path).scheme\n    if scheme != 'file':\n        same = path\n        return same\n    return " + _RP_URL, None),
+    V("benign: scheme test merged into one conjunction", FILE, RP, _RP_BODY,
+      "    if ':/' in path:\n        if not (':/' in path and urllib.parse.urlsplit(path).scheme == 'file'):\n            return path\n        return " + _RP_URL + "\n    return " + _RP_PLAIN, None),
+    V("swapped branches, test not negated: only non-file schemes are remapped", FILE, RP, _RP_BODY,
+      "    if not ':/' in path:\n        return " + _RP_PLAIN + "\n    else:\n        scheme = urllib.parse.urlsplit(path).scheme\n        if scheme == 'file':\n            return path\n"
+      "        else:\n            return " + _RP_URL, "R2"),
+    V("scheme test widened to a second scheme", FILE, RP, "if scheme == 'file':", "if scheme in ('file', 'http'):", "R2"),
+    V("tempret shape: directories swapped on the url branch", FILE, RP, _RP_BODY,
+      "    if ':/' in path:\n        scheme = urllib.parse.urlsplit(path).scheme\n        if scheme == 'file':\n            _sf_ret = " + _RP_URL.replace("new_dir", "@").replace("old_dir", "new_dir").replace("@", "old_dir") + "\n            return _sf_ret\n"
+      "        else:\n            return path\n    else:\n        _sf_ret = " + _RP_PLAIN + "\n        return _sf_ret", "R1"),
+    V("benign: returns of remap_token_value through a temporary (tempret)", FILE, RTV, "return [remap_token_value(path_processor, old_dir, new_dir, v) for v in value]",
+      "_sf_ret = [remap_token_value(path_processor, old_dir, new_dir, v) for v in value]\n            return _sf_ret", None),
+    V("benign: every computed return of remap_token_value through one temporary (tempret)", FILE, RTV, None, None, None),  # filled in below
+    V("benign: presence test negated with an empty branch", FILE, RTV, "if 'listing' in value:\n                        value['listing'] =",
+      "if not 'listing' in value:\n                        pass\n                    else:\n                        value['listing'] =", None),
+    # ---- breaking: the directories are re-bound before a nested recursion (seeded change C32-2)
+    V("listing: directories re-bound to the entry's own old/new path", FILE, RTV,
+      "if 'listing' in value:\n                        value['listing'] =",
+      "if 'listing' in value:\n                        if 'path' in value:\n                            old_dir, new_dir = (old_dir, value['path'])\n                        value['listing'] =", "R2"),
+    V("secondaryFiles: old_dir re-bound to its parent", FILE, RTV,
+      "if 'secondaryFiles' in value:\n                        value['secondaryFiles'] =",
+      "if 'secondaryFiles' in value:\n                        old_dir = os.path.dirname(old_dir)\n                        value['secondaryFiles'] =", "R2"),
+    V("File objects: new_dir re-bound before location/path are remapped", FILE, RTV, "                    if 'location' in value:",
+      "                    new_dir = os.path.join(new_dir, value.get('dirname', ''))\n                    if 'location' in value:", "R2"),
+    V("arrays: directories re-bound before the element-wise recursion", FILE, RTV, "            return [remap_token_value(path_processor, old_dir, new_dir, v) for v in value]",
+      "            old_dir = new_dir\n            return [remap_token_value(path_processor, old_dir, new_dir, v) for v in value]", "R2"),
+    V("records: directory re-bound by a walrus before the value-wise recursion", FILE, RTV,
+      "                    return {k: remap_token_value(path_processor, old_dir, new_dir, v) for k, v in value.items()}",
+      "                    if (new_dir := value.get('basedir', new_dir)):\n                        pass\n                    return {k: remap_token_value(path_processor, old_dir, new_dir, v) for k, v in value.items()}", "R2"),
 ]
+
+
+class _TempRet(ast.NodeTransformer):
+    """`return <expr>` -> `_sf_ret = <expr>; return _sf_ret` for every return of a computed value (the same temporary
+    on every branch, so the name has several definitions and only a flow-sensitive reading sees which one is returned)."""
+
+    def generic_visit(self, node):
+        super().generic_visit(node)
+        for fld in ("body", "orelse", "finalbody"):
+            b = getattr(node, fld, None)
+            if isinstance(b, list) and b and isinstance(b[0], ast.stmt):
+                out = []
+                for st in b:
+                    if isinstance(st, ast.Return) and st.value is not None and not isinstance(st.value, (ast.Name, ast.Constant)):
+                        out.append(ast.Assign(targets=[ast.Name(id="_sf_ret", ctx=ast.Store())], value=st.value, lineno=0))
+                        out.append(ast.Return(value=ast.Name(id="_sf_ret", ctx=ast.Load())))
+                    else:
+                        out.append(st)
+                setattr(node, fld, out)
+        return node
 
 
 def _fix_variants():
@@ -562,6 +689,8 @@ def _fix_variants():
             for v in VARIANTS:
                 if v.name.startswith("benign: match rewritten as if-chain"):
                     v.old, v.new = text, _IF_CHAIN
+                elif v.name.startswith("benign: every computed return of remap_token_value through one temporary"):
+                    v.old, v.new = text, ast.unparse(_TempRet().visit(ast.parse(text)))
 
 
 _fix_variants()
